@@ -18,7 +18,7 @@ from harness import text as T
 from harness import textcheck as TC
 from props import _text as X
 
-PROPS = ["Octave.Props.C03", "Octave.Props.C03flat", "Octave.Props.C03expr", "Octave.Props.C01blocks", "Octave.Props.C01sections", "Octave.Props.C01lists", "Octave.Props.C01unified", "Octave.Props.C03indent", "Octave.Props.C03tree", "Octave.Props.C01maps", "Octave.Props.C07multiword", "Octave.Props.C07mwnum", "Octave.Props.C07mwbool", "Octave.Props.C03endindent"]
+PROPS = ["Octave.Props.C03", "Octave.Props.C03flat", "Octave.Props.C03expr", "Octave.Props.C01blocks", "Octave.Props.C01sections", "Octave.Props.C01lists", "Octave.Props.C01unified", "Octave.Props.C03indent", "Octave.Props.C03tree", "Octave.Props.C01maps", "Octave.Props.C07multiword", "Octave.Props.C07mwnum", "Octave.Props.C07mwbool", "Octave.Props.C07mwfloat", "Octave.Props.C03endindent"]
 FREEDOMS = ["alias", "space", "indent", "blank", "trailing_space", "layout", "quotes", "multiword", "constructor", "end"]
 CLASSES = {}
 
